@@ -338,8 +338,19 @@ func (ce *cenv) tableEntries(cl *ast.CompositeLit) (map[int64]ast.Expr, int64) {
 	return out, max
 }
 
+// litMapType: the map type of a composite literal, or nil for a list (a literal synthesised by a rule has no type
+// recorded and is an indexed list).
+func (ce *cenv) litMapType(cl *ast.CompositeLit) *types.Map {
+	t := ce.info.TypeOf(cl)
+	if t == nil {
+		return nil
+	}
+	mt, _ := t.Underlying().(*types.Map)
+	return mt
+}
+
 func (ce *cenv) tableLen(cl *ast.CompositeLit) int {
-	if _, isMap := ce.info.TypeOf(cl).Underlying().(*types.Map); isMap {
+	if ce.litMapType(cl) != nil {
 		return len(cl.Elts)
 	}
 	_, n := ce.tableEntries(cl)
@@ -347,7 +358,7 @@ func (ce *cenv) tableLen(cl *ast.CompositeLit) int {
 }
 
 func (ce *cenv) tableAt(cl *ast.CompositeLit, k constant.Value) (constant.Value, bool) {
-	if mt, isMap := ce.info.TypeOf(cl).Underlying().(*types.Map); isMap {
+	if mt := ce.litMapType(cl); mt != nil {
 		for _, el := range cl.Elts {
 			if kv, isKV := el.(*ast.KeyValueExpr); isKV {
 				if kk, okk := ce.eval(kv.Key, nil); okk && kk.Kind() == k.Kind() && constant.Compare(kk, token.EQL, k) {
@@ -377,12 +388,14 @@ func (ce *cenv) tableAt(cl *ast.CompositeLit, k constant.Value) (constant.Value,
 		return ce.eval(e, nil)
 	}
 	// a gap in a keyed slice literal: the element type's zero value
-	var et types.Type
-	switch t := ce.info.TypeOf(cl).Underlying().(type) {
-	case *types.Slice:
-		et = t.Elem()
-	case *types.Array:
-		et = t.Elem()
+	var et types.Type = types.Typ[types.String] // (a synthesised literal: a list of strings)
+	if lt := ce.info.TypeOf(cl); lt != nil {
+		switch t := lt.Underlying().(type) {
+		case *types.Slice:
+			et = t.Elem()
+		case *types.Array:
+			et = t.Elem()
+		}
 	}
 	if b, isB := et.Underlying().(*types.Basic); isB {
 		switch {
